@@ -20,6 +20,7 @@ import (
 	"sync"
 	"syscall"
 	"time"
+	"unsafe"
 
 	"github.com/database64128/shadowsocks-go/cred"
 	"github.com/database64128/shadowsocks-go/ss2022"
@@ -68,6 +69,8 @@ func applyOp(m map[string][]byte, op string) map[string][]byte {
 		delete(out, userName(0))
 	case "update":
 		out[userName(0)] = forge.Key(keySize, "c20/rotated")
+	case "add-after-restart":
+		out["zz-restart"] = forge.Key(keySize, "c20/restart")
 	}
 	return out
 }
@@ -80,6 +83,8 @@ func doOp(ms *cred.ManagedServer, op string) error {
 		return ms.DeleteCredential(userName(0))
 	case "update":
 		return ms.UpdateCredential(userName(0), forge.Key(keySize, "c20/rotated"))
+	case "add-after-restart":
+		return ms.AddCredential("zz-restart", forge.Key(keySize, "c20/restart"))
 	}
 	return fmt.Errorf("bad op")
 }
@@ -145,6 +150,20 @@ func runChild(e *core.Env) {
 	fmt.Println("ACK")
 	if sp.Mode == "efbig" {
 		signal.Ignore(syscall.SIGXFSZ)
+	} else {
+		// kill mode: the kernel's default action for SIGXFSZ must end the process inside the write. A SIG_IGN
+		// disposition inherited from whatever launched the check (Python and others ignore SIGXFSZ) is honoured by
+		// the Go runtime and would silently turn the crash into a write error: install SIG_DFL with a raw
+		// rt_sigaction, which also takes the Go runtime's own handler out of the way.
+		type ksigaction struct {
+			handler, flags, restorer uintptr
+			mask                     uint64
+		}
+		var sa ksigaction // handler 0 = SIG_DFL
+		if _, _, errno := syscall.RawSyscall6(syscall.SYS_RT_SIGACTION, uintptr(syscall.SIGXFSZ), uintptr(unsafe.Pointer(&sa)), 0, 8, 0, 0); errno != 0 {
+			fmt.Println("CHILD-ERROR sigaction", errno)
+			os.Exit(3)
+		}
 	}
 	var old syscall.Rlimit
 	syscall.Getrlimit(syscall.RLIMIT_FSIZE, &old)
@@ -186,7 +205,7 @@ type cpCase struct {
 
 func runCrashPoints(e *core.Env) {
 	rec := e.Rec
-	rec.Rule("crashpoints: one case = (store of N users, API change add/delete/update, fault mode: write error EFBIG or kill by SIGXFSZ, byte budget k); EVERY k in 0..len(new document)+1 is executed in its own child process running the real cred.Manager; afterwards the parent loads the file with a fresh manager; class = (N, op, mode, result old/new)")
+	rec.Rule("crashpoints: one case = (store of N users, API change add/delete/update, fault mode: write error EFBIG or kill by SIGXFSZ, byte budget k); EVERY k in 0..len(new document)+1 is executed in its own child process running the real cred.Manager; afterwards the parent loads the file with a fresh manager; after a kill the server is restarted (another child) on whatever the crash left in the directory, a further change is acknowledged and the service stopped cleanly - the store must then hold it; class = (N, op, mode, result old/new)")
 	ns := []int{1, 3}
 	if !e.Quick() {
 		ns = []int{0, 1, 3, 40}
@@ -276,6 +295,14 @@ func runCrashPoints(e *core.Env) {
 			return
 		}
 		// kill mode: the process died at byte k (or finished when the budget sufficed)
+		if faulted && strings.Contains(o, "DONE") {
+			// the crash this case is about did not happen: nothing was decided
+			rec.Inconclusive("kill-mode child survived SIGXFSZ")
+			return
+		}
+		if faulted {
+			rec.Count("children_killed_inside_a_save", 1)
+		}
 		got, err := loadWithFreshManager(path)
 		if err != nil {
 			b, _ := os.ReadFile(path)
@@ -295,6 +322,43 @@ func runCrashPoints(e *core.Env) {
 		if !faulted && res != "new" {
 			viol("acknowledged_change_not_saved", "no fault occurred (budget %d >= %d) but the acknowledged change was not written before the service stopped", c.K, L)
 			return
+		}
+		// ---- the server is restarted on what the crash left behind (store file plus whatever else is in its directory),
+		// another change is made through the API and the service is stopped cleanly: that change must be on disk ----
+		if faulted {
+			sp2 := spec{Path: path, Initial: got, Op: "add-after-restart", K: -1, Mode: "kill"}
+			sb2, _ := json.Marshal(sp2)
+			os.WriteFile(filepath.Join(dir, "spec.json"), sb2, 0o644)
+			ctx2, cancel2 := context.WithTimeout(context.Background(), 60*time.Second)
+			defer cancel2()
+			cmd2 := exec.CommandContext(ctx2, self, "-test.run=^TestVerif$", "-test.timeout=0", "-prop", "C20", "-part", "child", "-out", filepath.Join(dir, "unused.json"), "-work", dir)
+			var out2 bytes.Buffer
+			cmd2.Stdout, cmd2.Stderr = &out2, &out2
+			cmd2.Run()
+			if ctx2.Err() != nil {
+				rec.Inconclusive("child-watchdog")
+				return
+			}
+			o2 := out2.String()
+			if strings.Contains(o2, "CHILD-ERROR") || !strings.Contains(o2, "DONE") {
+				viol("restart_after_crash_failed", "after a crash at byte %d of a save the server could not be restarted, changed and stopped on the same store: %s", c.K, core.Hex([]byte(o2), 200))
+				return
+			}
+			got2, err := loadWithFreshManager(path)
+			if err != nil {
+				viol("file_unloadable", "after a crash at byte %d, a restart, one more change and a clean stop the store does not load: %v", c.K, err)
+				return
+			}
+			if want2 := applyOp(got, "add-after-restart"); canon(got2) != canon(want2) {
+				left, _ := os.ReadDir(dir)
+				var names []string
+				for _, f := range left {
+					names = append(names, f.Name())
+				}
+				viol("change_after_crashed_save_not_saved", "a save crashed at byte %d; the server was restarted on the same store, a user was added through the API (acknowledged) and the service stopped cleanly, but the store holds {%s} instead of {%s}; directory: %v", c.K, canon(got2), canon(want2), names)
+				return
+			}
+			rec.Count("restarts_after_crash_checked", 1)
 		}
 		rec.Class("N=%d/%s/kill/faulted=%v/%s", c.N, c.Op, faulted, res)
 		if i%97 == 0 {
